@@ -347,7 +347,10 @@ def run_engine(engine, circuit, m, n, masks, reuse=False, order=None, mask_with_
         out["allprob_again"][tuple(s)] = [float(x) for x in b.all_prob()]
         out["evolve_again"][tuple(s)] = {tuple(k): complex(v) for k, v in b.evolve()}
         if not masks:
-            out["amp_again"][tuple(s)] = [complex(b.prob_amplitude(pcvl.BasicState(t))) for t in states]
+            # (a sample of the outputs, a different one for each input: the first sweep covered all of them)
+            stride = max(1, len(states) // 4)
+            out["amp_again"][tuple(s)] = {j: complex(b.prob_amplitude(pcvl.BasicState(states[j])))
+                                          for j in range(len(seen) % stride, len(states), stride)}
     return out
 
 
@@ -407,7 +410,7 @@ def compare(engine, obs, states, table, masked_rows, masks):
                             {"s": s}))
         if tuple(s) in obs["amp_again"]:
             for j, t in enumerate(states):
-                if not core.close(obs["amp_again"][tuple(s)][j], exp_amp[j]):
+                if j in obs["amp_again"][tuple(s)] and not core.close(obs["amp_again"][tuple(s)][j], exp_amp[j]):
                     bad.append(("amplitude-second-query", f"{engine}.prob_amplitude({t}) for input {s}, asked again "
                                 f"after the bulk queries and evolve() on the same object = "
                                 f"{obs['amp_again'][tuple(s)][j]:.6g}, boson-sampling amplitude {exp_amp[j]:.6g}",
